@@ -78,3 +78,8 @@ check("C04", "exploration",
       "Full cross product of the address specifications (quick 7, thorough 15) as issuing and presenting address, both settings of the verification switch, both transports, plus legacy tunnels whose OUT and IN connections come from different addresses and sessions roaming between addresses; equal address strings must create the channel on the host's listener, different IPs must be refused with an access-denied status without dial event or accept, verification off must always create.",
       "trusted: loopback aliases 127.0.0.0/8 as distinct client addresses; same IP in another textual form is recorded, not judged",
       "DESIGN.md 4 C04")
+check("C18", "fault_enumeration",
+      "runtime monitoring of process start-up: reference predicate refuse(cfg) against exit status / listening behaviour of real gateway processes over the enumerated configuration lattice; cross-instance acceptance probes for key substitution",
+      "Thorough starts the complete product of 16 mechanism subsets (two spellings of local) x TLS x tokenauth x 4 host selections x query key x keytab x {0,1,2} hosts from a file, plus environment and mixed delivery of the rule-relevant keys; quick starts every single-rule violation with its repaired twin by all three sources, sampled single / pairwise violations and valid configurations. A refusing configuration must exit non-zero without ever accepting a connection, any other must complete an HTTP exchange. For every key x length {0,1,31} x session store two instances from the same configuration must not accept each other's tokens / cookies while accepting their own; length 32 is the calibration.",
+      "trusted: ports are never reused inside a lab run, so a listener belongs to the process under test; environment delivery restricted to keys with an unambiguous koanf spelling; PAATokenEncryptionKey has no observable use and is not probed",
+      "DESIGN.md 4 C18")
